@@ -267,6 +267,12 @@ func c17Gennaro(s *Suite, rng *Rng, thorough bool) {
 	var lastN *gbig.Int
 	for it := 0; it < nGood; it++ {
 		bits := 24 + rng.Intn(24)
+		switch it % 6 {
+		case 0:
+			bits = 66 + rng.Intn(31) // moduli above 128 bits: the per-round challenges of the sub-proofs span two hash blocks
+		case 1:
+			bits = 63 + rng.Intn(4) // around the one-block / two-block boundary
+		}
 		p, q := toyKeyPrimes(bits)
 		pp, qp := new(gbig.Int).Rsh(p, 1), new(gbig.Int).Rsh(q, 1)
 		n := new(gbig.Int).Mul(p, q)
